@@ -15,7 +15,7 @@ def out(tool):
 def main():
     p = os.path.join(V, "DESIGN.md")
     text = open(p).read()
-    for tag, tool in (("table92", "design_table.py"), ("seedlist", "seed_table.py")):
+    for tag, tool in (("table92", "design_table.py"), ("seedlist", "seed_table.py"), ("findings", "findings_table.py")):
         pat = re.compile(r"(<!-- BEGIN %s[^\n]*-->\n).*?(<!-- END %s -->)" % (tag, tag), re.S)
         assert pat.search(text), tag
         text = pat.sub(lambda m: m.group(1) + out(tool) + "\n" + m.group(2), text)
